@@ -78,7 +78,7 @@ pub fn run(engine: &str, prop: &str, path: &str, v: &Value) -> i32 {
             verdict(prop, path, twice(&|| check_input(fmt, &bytes, &probes).err().map(|(w, m)| format!("[{}] {}", w, m))))
         }
         "encoding" => {
-            use crate::checks::c10::{check_one, make, ALL_ENCS};
+            use crate::checks::c10::{check_one, check_one_pres, make, ALL_ENCS};
             let g = Graph::from_json(&case["graph"]);
             let name = case["encoder"].as_str().unwrap();
             let e = *ALL_ENCS.iter().find(|e| e.name() == name).expect("unknown encoder");
@@ -89,7 +89,7 @@ pub fn run(engine: &str, prop: &str, path: &str, v: &Value) -> i32 {
                 // re-use as in the sweep: encode a threshold framework first
                 let warm = crate::universe::threshold_family().into_iter().find(|(n, _)| n == "prod32_5x2shared_v0").unwrap().1;
                 let _ = check_one(&warm, e, enc.as_ref(), range);
-                check_one(&g, e, enc.as_ref(), range).err().map(|(w, m)| format!("[{}] {}", w, m))
+                check_one_pres(&g, e, enc.as_ref(), range, case["dup"].as_u64().unwrap_or(0) as u8).err().map(|(w, m)| format!("[{}] {}", w, m))
             }))
         }
         "equivalence" => {
